@@ -428,6 +428,8 @@ KNOWN_DEFECT_PROBES = [
     # (property ids, signature, source)
     (("C08",), "freevar-resolved-against-later-binding",
      "func main() -> int\n{\n    let x = 5;\n    {\n        func go1() -> int { x };\n        var x = 7;\n        go1()\n    }\n}\n"),
+    (("C08", "C02"), "inner-function-captures-enclosing-nested-function-wrong-slot",
+     "func outer(k : int) -> int\n{\n    func g(n : int, s : int) -> int\n    {\n        func h(m : int) -> int { m <= 0 ? k + s : g(m - 1, s + 3) + 1 };\n        h(n)\n    };\n    g(1, 100)\n}\nfunc main() -> int\n{\n    outer(5)\n}\n"),
     (("C02",), "constred-long-mul-reads-int-value",
      "func main() -> long\n{\n    4294967296L * 3L\n}\n"),
 ]
